@@ -135,7 +135,7 @@ theorem runItem_eval (conv : Conv) (s : Schema) :
       | .ok m' => m'.bag = none ∧ ∃ hs, runItem st i = .ok (withTop st m' below hs)
       | .error _ => ∃ e, runItem st i = .error e
   | .kv k v p, st, m, below, hst, hsch, hconv, hb => by
-    obtain ⟨sch, priv, hd, stk, pk, cv⟩ := st
+    obtain ⟨sch, priv, hd, stk, pk, cv, bs⟩ := st
     simp only at hst hsch hconv
     subst hst hsch hconv
     rw [evalItem, runItem]
@@ -145,7 +145,7 @@ theorem runItem_eval (conv : Conv) (s : Schema) :
     | error e => exact ⟨_, rfl⟩
     | ok m' => exact ⟨addValue_bag _ _ _ _ _ _ hb h, hd, rfl⟩
   | .sect ty nm items, st, m, below, hst, hsch, hconv, hb => by
-    obtain ⟨sch, priv, hd, stk, pk, cv⟩ := st
+    obtain ⟨sch, priv, hd, stk, pk, cv, bs⟩ := st
     simp only at hst hsch hconv
     subst hst hsch hconv
     rw [evalItem, runItem]
@@ -170,7 +170,7 @@ theorem runItem_eval (conv : Conv) (s : Schema) :
             · simp only [h2, if_false, Bool.false_eq_true, hb]
               have ih := runItems_eval cv sch items
                 { schema := sch, privateSchema := priv, handlers := hd, stack := newMatcher t nm none :: m :: below,
-                  pkgs := pk, conv := cv } (newMatcher t nm none) (m :: below)
+                  pkgs := pk, conv := cv, bagSchema := bs } (newMatcher t nm none) (m :: below)
                 rfl rfl rfl rfl
               cases he : evalItems cv sch (newMatcher t nm none) items with
               | error e =>
